@@ -151,7 +151,7 @@ def nsval_pairs() -> Iterator[tuple[Op, ...]]:
     """Namespace-value family: every ordered pair of loads over 4 names x {no namespace
     (top-level or through a render tag), each of the 11 namespace values supplied by
     keyword / render context / render tag / include tag / keyword and context at once};
-    both loads sync or both async."""
+    all pairs with both loads sync, and all same-name pairs with both loads async."""
     singles: list[tuple[int, int, int]] = []
     for n in range(len(NS_NAMES)):
         singles.append((n, 0, 0))
@@ -162,12 +162,15 @@ def nsval_pairs() -> Iterator[tuple[Op, ...]]:
     for mode in (0, 1):
         for a in singles:
             for b in singles:
+                if mode and a[0] != b[0]:
+                    continue
                 yield (Op("load", a[0], a[1], 0, mode, a[2]), Op("load", b[0], b[1], 0, mode, b[2]))
 
 
 def nsval_count() -> int:
-    k = len(NS_NAMES) * (2 + 5 * len(NS_VALUES))
-    return 2 * k * k
+    per_name = 2 + 5 * len(NS_VALUES)
+    k = len(NS_NAMES) * per_name
+    return k * k + len(NS_NAMES) * per_name * per_name
 
 
 def engine_key_collision(a: Op, b: Op, fam: str) -> str | None:
